@@ -39,17 +39,23 @@ CadenceOK(r) ==
         (E(r)[i].inside /\ E(r)[i].pending = 0 /\ ~E(r)[i].main_done) =>
             \E j \in 1..i : SaveDone(r, j) /\ E(r)[i].t - E(r)[j].t <= SaveInterval
 
+(* at the moment the caller gets control back nothing is left to do: no task, no file job, file = registry *)
+ExitInstantOK(r) ==
+    \A i \in 1..Len(E(r)) :
+        E(r)[i].exit_instant => (E(r)[i].alive = 0 /\ E(r)[i].pending = 0 /\ (Sc(r).connect_fail \/ E(r)[i].disk = E(r)[i].reg))
+
 Verdict(r) ==
     LET z == Last(r) IN
     IF z.kind = "stuck" THEN "stuck"
     ELSE IF Sc(r).connect_fail THEN
         (IF z.kind # "Transport" THEN "connect-error-not-propagated"
-         ELSE IF z.alive # 0 THEN "task-left-after-failed-connect"
+         ELSE IF z.alive # 0 \/ ~ExitInstantOK(r) THEN "task-left-after-failed-connect"
          ELSE "ok")
     ELSE IF z.kind \notin AllowedExc(r) THEN "wrong-exception"
     ELSE IF z.connects >= 1 /\ z.disconnects # 1 THEN "not-disconnected"
     ELSE IF z.disk # z.reg THEN "final-registry-not-saved"
     ELSE IF z.alive # 0 THEN "task-left"
+    ELSE IF ~ExitInstantOK(r) THEN "work-left-when-the-context-returned"
     ELSE IF ~CadenceOK(r) THEN "cadence"
     ELSE "ok"
 
